@@ -99,6 +99,8 @@ class Sparse(Val):
         p = self.pattern
         if p is None:
             raise Unsupported("dense view of a sparse matrix without a pattern model")
+        if getattr(self, "link", None) is not None:
+            self.link(ctx, i, j)
         ctx.assume(p.facts_at_ij(ctx, i, j))
         pos = p.pos(zint(i), zint(j))
         val = to_num(vget(ctx, self.data, pos))
@@ -290,8 +292,11 @@ def _dense_snapshot(ctx, M: Sparse):
         return M._dense
     p = M.pattern
     dsnap = snapshot(M.data)
+    link = getattr(M, "link", None)
 
     def d(c, i, j):
+        if link is not None:
+            link(c, i, j)
         c.assume(p.facts_at_ij(c, i, j))
         pos = p.pos(zint(i), zint(j))
         val = to_num(dsnap(pos))
@@ -301,6 +306,11 @@ def _dense_snapshot(ctx, M: Sparse):
 
 def _rowsum_snapshot(ctx, M: Sparse):
     if M._rowsum is not None:
+        return M._rowsum
+    if M.data is None:
+        # a result known only through its dense view: its row sums are an uninterpreted function of that matrix
+        g = ctx.func(f"rowsum_m{M.id}", z3.IntSort(), z3.RealSort())
+        M._rowsum = lambda c, i: g(zint(i))
         return M._rowsum
     f = rowsum_fn(ctx, M)
     return lambda c, i: f(i)
